@@ -51,6 +51,51 @@ def outcome(fn, *a, **k):
         return ("error", f"{type(e).__name__}: {e}"[:300])
 
 
+def sampling_cost_guard(R, depth=0):
+    """reason why driving R's sampler is impractical (the library's rejection loops are unbounded on sliver-like
+    regions: up to 1e6 candidate points per draw for thin meshes, a `while True` loop for thin polygons), else None"""
+    try:
+        name = type(R).__name__
+        if hasattr(R, "num_samples") and hasattr(R, "mesh"):
+            if R.num_samples > 400:
+                return "mesh with tiny volume fraction"
+        if hasattr(R, "polygons") and hasattr(R, "_samplingData"):
+            g = R.polygons
+            x0, y0, x1, y1 = g.bounds
+            box = max((x1 - x0) * (y1 - y0), 1e-300)
+            if g.area / box < 1e-4:
+                return "sliver polygon"
+        if depth < 3:
+            for sub in list(getattr(R, "regions", ())) + [getattr(R, "regionA", None), getattr(R, "regionB", None)]:
+                if sub is not None:
+                    r = sampling_cost_guard(sub, depth + 1)
+                    if r:
+                        return r
+    except Exception:
+        return None
+    return None
+
+
+class Watchdog(Exception):
+    pass
+
+
+def with_watchdog(seconds, fn, *a, **k):
+    """run fn under a SIGALRM watchdog (a firing watchdog is never a verdict: the caller counts it as skipped)"""
+    import signal
+
+    def handler(signum, frame):
+        raise Watchdog()
+
+    old = signal.signal(signal.SIGALRM, handler)
+    signal.alarm(int(seconds))
+    try:
+        return fn(*a, **k)
+    finally:
+        signal.alarm(0)
+        signal.signal(signal.SIGALRM, old)
+
+
 def seed_global(seed):
     """Scenic's samplers draw from the global `random` and `numpy.random` state: seeding it is part of the workload."""
     random.seed(seed)
